@@ -31,8 +31,9 @@ vars == <<reg, streams, obs, steps, mut, caught>>
 
 Vals  == [1..NF -> 0..MaxId]
 Names == {"a", "b"}
-Masks == { [nil |-> TRUE, paths |-> <<>>], [nil |-> FALSE, paths |-> <<>>], [nil |-> FALSE, paths |-> <<1>>],
-           [nil |-> FALSE, paths |-> <<NF>>], [nil |-> FALSE, paths |-> <<1, NF>>] }
+\* (sub-field selections are opaque numbers supplied by the abstraction; the machine uses whole fields only)
+M(n, ps) == [nil |-> n, paths |-> ps, nested |-> <<>>]
+Masks == { M(TRUE, <<>>), M(FALSE, <<>>), M(FALSE, <<1>>), M(FALSE, <<NF>>), M(FALSE, <<1, NF>>) }
 Zero  == [i \in 1..NF |-> 0]
 NoObs == [op |-> "none"]
 
@@ -64,8 +65,8 @@ Init ==
 Other(a, b) == CHOOSE w \in Vals : w # a /\ w # b
 
 \* ---- Update -----------------------------------------------------------------
-Update(x, m, reject, r, echo, inter) ==
-  LET base == [op |-> "Update", pre |-> G(reg), mask |-> m] IN
+Update(x, m, reject, r, echo, inter, interOld) ==
+  LET base == [op |-> "Update", pre |-> G(reg), mask |-> m, sub |-> Zero] IN
   IF reject
     THEN LET newreg == IF mut = "rejected-update-writes" THEN x ELSE reg IN
          /\ reg' = newreg
@@ -78,8 +79,9 @@ Update(x, m, reject, r, echo, inter) ==
           seenChanged == resp # reg      \* what the client takes for "the update changed the value"
           emit(s) == LET nm == IF mut = "constant-name" THEN "a" ELSE s.name IN
                      IF mut = "no-stream-events" THEN <<>>
-                     ELSE IF changed THEN (IF inter THEN <<[name |-> nm, v |-> Other(reg, r)]>> ELSE <<>>) \o <<[name |-> nm, v |-> r]>>
-                     ELSE IF echo THEN <<[name |-> nm, v |-> r]>> ELSE <<>>
+                     ELSE IF changed THEN (IF inter THEN <<[name |-> nm, v |-> IF interOld THEN reg ELSE Other(reg, r), ct |-> "after-open"]>> ELSE <<>>)
+                                          \o <<[name |-> nm, v |-> r, ct |-> "after-open"]>>
+                     ELSE IF echo THEN <<[name |-> nm, v |-> r, ct |-> "after-open"]>> ELSE <<>>
           fed == [j \in 1..Len(streams) |-> [streams[j] EXCEPT !.q = @ \o emit(streams[j])]]
           aw  == [j \in 1..Len(streams) |-> Await(fed[j], resp)]
       IN
@@ -91,15 +93,16 @@ Update(x, m, reject, r, echo, inter) ==
 
 \* ---- Get --------------------------------------------------------------------
 Get(m) ==
-  /\ UNCHANGED <<reg, streams>>
-  /\ obs' = [op |-> "Get", pre |-> G(reg), post |-> G(reg), code |-> "OK", mask |-> m,
-             resp |-> IF mut = "get-ignores-mask" THEN reg ELSE Project(reg, m),
+  /\ reg' = (IF mut = "get-writes" THEN Project(reg, m, Zero) ELSE reg)
+  /\ UNCHANGED streams
+  /\ obs' = [op |-> "Get", pre |-> G(reg), post |-> G(reg'), code |-> "OK", mask |-> m, sub |-> Zero,
+             resp |-> IF mut = "get-ignores-mask" THEN reg ELSE Project(reg, m, Zero),
              streams |-> [j \in 1..Len(streams) |-> Snap(streams[j])]]
 
 \* ---- OpenPull ---------------------------------------------------------------
 Open(uo, name, initName) ==
   LET sid == steps + 1
-      seed == IF (uo /\ mut # "ignores-updates-only") \/ mut = "no-initial-value" THEN <<>> ELSE <<[name |-> initName, v |-> reg]>>
+      seed == IF (uo /\ mut # "ignores-updates-only") \/ mut = "no-initial-value" THEN <<>> ELSE <<[name |-> initName, v |-> reg, ct |-> "before-open"]>>
       s0 == [sid |-> sid, name |-> name, uo |-> uo, nread |-> 0, pending |-> 0, vopen |-> reg, q |-> seed]
       \* the harness reads one message from a Pull that is not updates-only
       readOne == ~uo
@@ -110,7 +113,7 @@ Open(uo, name, initName) ==
   /\ Len(streams) < 2
   /\ reg' = reg
   /\ streams' = Append(streams, s1)
-  /\ obs' = [op |-> "OpenPull", pre |-> G(reg), post |-> G(reg), code |-> "OK", mask |-> [nil |-> TRUE, paths |-> <<>>],
+  /\ obs' = [op |-> "OpenPull", pre |-> G(reg), post |-> G(reg), code |-> "OK", mask |-> M(TRUE, <<>>), sub |-> Zero,
              resp |-> Zero, streams |-> [j \in 1..Len(streams) |-> Snap(streams[j])] \o <<snap>>]
 
 \* ---- CloseStream ------------------------------------------------------------
@@ -118,7 +121,7 @@ Close(i) ==
   /\ i \in 1..Len(streams)
   /\ reg' = reg
   /\ streams' = [j \in 1..(Len(streams) - 1) |-> IF j < i THEN streams[j] ELSE streams[j + 1]]
-  /\ obs' = [op |-> "CloseStream", pre |-> G(reg), post |-> G(reg), code |-> "OK", mask |-> [nil |-> TRUE, paths |-> <<>>],
+  /\ obs' = [op |-> "CloseStream", pre |-> G(reg), post |-> G(reg), code |-> "OK", mask |-> M(TRUE, <<>>), sub |-> Zero,
              resp |-> Zero, streams |-> [j \in 1..Len(streams) |-> IF j = i THEN [Snap(streams[j]) EXCEPT !.msgs = streams[j].q]
                                                                            ELSE Snap(streams[j])]]
 
@@ -126,11 +129,11 @@ Step ==
   \* the update mask and the written value do not influence the reference machine (business rules are
   \* opaque), so they are not varied except where a mutant uses the written value
   \/ \E x \in (IF mut \in {"response-is-request", "rejected-update-writes"} THEN Vals ELSE {reg}),
-        m \in {[nil |-> TRUE, paths |-> <<>>]}, reject \in BOOLEAN, r \in Vals, echo \in BOOLEAN, inter \in BOOLEAN :
+        m \in {M(TRUE, <<>>)}, reject \in BOOLEAN, r \in Vals, echo \in BOOLEAN, inter \in BOOLEAN, interOld \in BOOLEAN :
        /\ (reject => r = reg /\ ~echo /\ ~inter)          \* irrelevant choices collapsed
-       /\ (r = reg => ~inter) /\ (r # reg => ~echo)
+       /\ (r = reg => ~inter) /\ (r # reg => ~echo) /\ (~inter => ~interOld)
        /\ (inter => Cardinality(Vals) > 2)
-       /\ Update(x, m, reject, r, echo, inter)
+       /\ Update(x, m, reject, r, echo, inter, interOld)
   \/ \E m \in Masks : Get(m)
   \/ \E uo \in BOOLEAN, name \in Names, initName \in Names : (uo => initName = name) /\ Open(uo, name, initName)
   \/ \E i \in 1..2 : Close(i)
